@@ -9,8 +9,10 @@ the resampler's *internal* randomness under harness control:
              with genjax's public constructor ``distribution(wrap_sampler(keyful),
              wrap_logpdf(..))``; the keyful sampler returns the next scripted value through
              ``io_callback(ordered=True)`` and records the parameters the site really
-             received.  Run as ``jit(seed(resample))(key, particles)`` (sweeps) and as plain
-             eager ``seed(resample)(key, particles)`` (subsample).
+             received.  Run as ``jit(seed(resample))(key, particles)`` (sweeps; the same
+             execution also calls ``systematic_resample(log_weights, N)`` itself, fed the same
+             scripted offset, so that the raw index vector is seen before the gather clamps
+             it) and as plain eager ``seed(resample)(key, particles)`` (every other case).
   real       the untouched samplers, ``vmap`` over a batch of PRNG keys of
              ``seed(resample)(key, particles, method)`` (exact binomial monitors).
 
